@@ -301,6 +301,11 @@ func killGroup() {
 	}
 }
 
+// DirPart is the content of the k-th companion file of a directory output.
+func DirPart(proc, port string, k int) []byte {
+	return []byte(fmt.Sprintf("VDIRPART id=%s port=%s part=%d\n", proc, port, k))
+}
+
 // evPid is the process id events are reported under: a background helper reports under the id of the command
 // that started it, so that start and end event of one task carry the same id.
 func evPid() int {
@@ -472,7 +477,11 @@ func Exec(args []string, env *Env) int {
 		}
 		full := env.abs(path)
 		if w.dir {
+			// a directory output holds several files: two parts (written first, sorting before "data") and "data"
 			os.MkdirAll(full, 0777)
+			for k := 1; k <= 2; k++ {
+				os.WriteFile(filepath.Join(full, fmt.Sprintf("aa_part%d", k)), DirPart(c.ID, w.port, k), 0644)
+			}
 			full = filepath.Join(full, "data")
 		}
 		var f *os.File
